@@ -52,7 +52,6 @@ func init() {
 		"bufio.NewReader":             extBufioNewReader,
 		"(*bufio.Reader).ReadRune":    extReadRune,
 		"(*bufio.Reader).UnreadRune":  extUnreadRune,
-		"context.Background":          extCtxBackground,
 		"context.WithCancel":          extCtxWithCancel,
 		"(*sync.WaitGroup).Add":       extNop,
 		"(*sync.WaitGroup).Done":      extNop,
